@@ -6,6 +6,7 @@ import (
 	"encoding/json"
 	"fmt"
 	"net"
+	"sync"
 	"time"
 
 	mail "github.com/wneessen/go-mail"
@@ -34,6 +35,11 @@ type c17Cfg struct {
 	Fallback bool `json:"fallback,omitempty"`
 	// NoNoop: the Client is created with WithoutNoop() (no NOOP probe before an operation)
 	NoNoop bool `json:"nonoop,omitempty"`
+	// Real: the server is a real loopback TCP listener that accepts the connection and then stays silent for good, and
+	// the Client uses its OWN dialer (for implicit TLS its own TLS dialer: the handshake is part of the dial). The
+	// configured timeout is 400 ms of real time; the only verdict is whether the call returns at all within the
+	// harness' call bound (20 s) — no judgement is derived from how long it took.
+	Real bool `json:"real,omitempty"`
 }
 
 type c17Case struct {
@@ -60,6 +66,71 @@ func c17Msgs(cfg c17Cfg) []*mail.Msg {
 
 func c17Exec(r *vf.Run, cfg c17Cfg, c *vf.Chooser) (keys, whats []string) {
 	add := func(k, w string) { keys = append(keys, k); whats = append(whats, w) }
+	if cfg.Real {
+		ln, err := net.Listen("tcp", "127.0.0.1:0")
+		if err != nil {
+			r.HarnessError("C17 listen: %v", err)
+			return
+		}
+		defer ln.Close()
+		var held []net.Conn
+		var hmu sync.Mutex
+		go func() {
+			for {
+				cn, aerr := ln.Accept()
+				if aerr != nil {
+					return
+				}
+				hmu.Lock()
+				held = append(held, cn) // kept open, never answered
+				hmu.Unlock()
+			}
+		}()
+		defer func() {
+			hmu.Lock()
+			for _, cn := range held {
+				_ = cn.Close()
+			}
+			hmu.Unlock()
+		}()
+		opts := []mail.Option{mail.WithPort(ln.Addr().(*net.TCPAddr).Port), mail.WithHELO("client.example.test"), mail.WithTLSConfig(hx.ClientTLS("127.0.0.1")), mail.WithTimeout(400 * time.Millisecond)}
+		if cfg.TLS == 2 {
+			opts = append(opts, mail.WithSSL())
+		} else {
+			opts = append(opts, mail.WithTLSPolicy(mail.NoTLS))
+		}
+		cl, err := mail.NewClient("127.0.0.1", opts...)
+		if err != nil {
+			r.HarnessError("C17 NewClient: %v", err)
+			return
+		}
+		ctx := context.Background()
+		if cfg.CtxDL {
+			var cancel context.CancelFunc
+			ctx, cancel = context.WithTimeout(ctx, time.Hour)
+			defer cancel()
+		}
+		var opErr error
+		pan, pw, hung := vf.GuardTimeout(vf.CallTimeout, func() {
+			if cfg.Entry == 1 {
+				opErr = cl.DialAndSendWithContext(ctx, c17Msgs(cfg)...)
+			} else {
+				opErr = cl.DialWithContext(ctx)
+			}
+		})
+		switch {
+		case pan:
+			add("panic/"+vf.PanicSite(pw), pw)
+		case hung:
+			add(fmt.Sprintf("call-never-returns/op=%s/real-socket/tls=%s", c17Entry[cfg.Entry], c17TLS[cfg.TLS]),
+				fmt.Sprintf("%s against a real loopback server that accepts the connection and stays silent did not return within %v (configured timeout 400ms, tls=%s, the Client's own dialer)", c17Entry[cfg.Entry], vf.CallTimeout, c17TLS[cfg.TLS]))
+		case opErr == nil:
+			r.HarnessError("C17 real-socket case: the call succeeded against a silent server")
+		default:
+			r.Outcome("reached/real-socket-silent-server/tls=" + c17TLS[cfg.TLS])
+		}
+		return
+	}
 	caps := []string{"8BITMIME", "AUTH PLAIN LOGIN SCRAM-SHA-256"}
 	if cfg.TLS == 1 {
 		caps = append(caps, "STARTTLS")
@@ -300,7 +371,7 @@ func init() {
 	vf.Register(&vf.Check{
 		ID: "C17", Title: "every network operation is bounded by the configured timeout",
 		Run: func(r *vf.Run) {
-			r.SetRule("one stall (server silent, connection open) at every command position of the dialogue — greeting, EHLO, STARTTLS, inside the TLS handshake, every AUTH step, NOOP, MAIL, each RCPT, DATA, mid-content (server stops reading), end-of-data, RSET, QUIT — × TLS mode {none, STARTTLS, implicit} × auth {none, PLAIN, LOGIN, SCRAM-SHA-256} × entry point {DialWithContext, DialAndSend, Send, Reset, Send after an idle hour} × caller context with/without own deadline × Client with/without WithoutNoop() × (STARTTLS) the connection to the fallback port after the primary port refused × history {none, then Reset / Send / Close on the same Client while the server stays silent}; oracle is logical: whenever the client blocks on the silent peer a deadline must be armed on the connection and, on the connection's virtual clock (advanced by every wait the client sat through), end <= call start + timeout + 1.5 s — for EVERY wait of the call, so re-arming after a timeout and waiting again is seen; distinct by (configuration, stall position)")
+			r.SetRule("one stall (server silent, connection open) at every command position of the dialogue — greeting, EHLO, STARTTLS, inside the TLS handshake, every AUTH step, NOOP, MAIL, each RCPT, DATA, mid-content (server stops reading), end-of-data, RSET, QUIT — × TLS mode {none, STARTTLS, implicit} × auth {none, PLAIN, LOGIN, SCRAM-SHA-256} × entry point {DialWithContext, DialAndSend, Send, Reset, Send after an idle hour} × caller context with/without own deadline × Client with/without WithoutNoop() × (STARTTLS) the connection to the fallback port after the primary port refused × (real loopback sockets, the Client's own dialer — for implicit TLS its own TLS dialer) a server that accepts the connection and stays silent, judged only by whether the call returns at all × history {none, then Reset / Send / Close on the same Client while the server stays silent}; oracle is logical: whenever the client blocks on the silent peer a deadline must be armed on the connection and, on the connection's virtual clock (advanced by every wait the client sat through), end <= call start + timeout + 1.5 s — for EVERY wait of the call, so re-arming after a timeout and waiting again is seen; distinct by (configuration, stall position)")
 			r.Assume("net.Conn deadline semantics as documented (a blocked Read/Write returns at the armed deadline; with none armed it never returns)",
 				"the caller's context is not a bound: the property promises the configured timeout",
 				"idle time is simulated by skewing the connection's clock by one hour")
@@ -342,6 +413,13 @@ func init() {
 					}
 				}
 			}
+			for _, tlsm := range []int{0, 2} {
+				for e := 0; e <= 1; e++ {
+					for _, cd := range []bool{false, true} {
+						cfgs = append(cfgs, c17Cfg{TLS: tlsm, Entry: e, CtxDL: cd, Real: true})
+					}
+				}
+			}
 			r.Extra("configurations", len(cfgs))
 			r.Parallel(len(cfgs), "C17 configurations", func(i int) {
 				cfg := cfgs[i]
@@ -373,7 +451,7 @@ func init() {
 					r.Reached(fmt.Sprintf("reached/stall/entry=%s/tls=%s", e, t))
 				}
 			}
-			r.Reached("reached/stall-inside-handshake", "reached/write-side-stall", "reached/caller-context-with-deadline", "reached/after-idle-hour", "reached/stall-on-the-fallback-connection", "follow/Reset/blocks=0", "follow/Send/blocks=0", "follow/Close/blocks=0")
+			r.Reached("reached/real-socket-silent-server/tls=none", "reached/real-socket-silent-server/tls=implicit", "reached/stall-inside-handshake", "reached/write-side-stall", "reached/caller-context-with-deadline", "reached/after-idle-hour", "reached/stall-on-the-fallback-connection", "follow/Reset/blocks=0", "follow/Send/blocks=0", "follow/Close/blocks=0")
 		},
 		Replay: func(r *vf.Run, kase json.RawMessage) {
 			var k c17Case
